@@ -1106,7 +1106,9 @@ fn gen_case(batch: &str, index: u64, seed: u64) -> Case {
             let x: Vec<Vec<f64>> = (0..n).map(|_| vec![off + r.range(-0.5, 0.5), off + r.range(-0.5, 0.5)]).collect();
             let y: Vec<f64> = x.iter().map(|row| slope * (row[0] - off) + 0.1 * r.range(-1.0, 1.0)).collect();
             let kernel = if pr.chance(0.6) { KSpec { kind: "poly".into(), gamma: 0.5, degree: 2.0, coef0: 1.0 } } else { KSpec { kind: "linear".into(), gamma: 0.0, degree: 0.0, coef0: 0.0 } };
-            Case { model: "svr".into(), x, y, kernel, c: *pr.pick(&[1.0, 10.0, 100.0]), tol: *pr.pick(&[1e-4, 1e-3]), epoch: 0, eps: 0.05, f32m: true, queries: vec![], budget: 500_000_000, tape: TapeSpec::prng(tape_seed), kind: "svr-f32-offcentre".into(), ctor: (seed % 4) as u8 }
+            // C = 100 only beyond the quick tier's 300 runs: some of those fits wander for 1e8 updates before they settle
+            let c = if index >= 300 { *pr.pick(&[1.0, 10.0, 100.0]) } else { *pr.pick(&[1.0, 10.0]) };
+            Case { model: "svr".into(), x, y, kernel, c, tol: *pr.pick(&[1e-4, 1e-3]), epoch: 0, eps: 0.05, f32m: true, queries: vec![], budget: 2_000_000_000, tape: TapeSpec::prng(tape_seed), kind: "svr-f32-offcentre".into(), ctor: (seed % 4) as u8 }
         }
         "svr-resonant" => {
             // parameters tuned to the data. SMO moves coefficients to the unclipped optimum of a pair,
@@ -1164,7 +1166,7 @@ fn gen_case(batch: &str, index: u64, seed: u64) -> Case {
             // real progress
             if index % 3 == 2 {
                 let n = pr.usize_in(4, 5);
-                let s2 = if index >= 216 { logu(&mut pr, 8e3, 2e4) } else { logu(&mut pr, 2e3, 5e3) };
+                let s2 = if index >= 216 { logu(&mut pr, 8e3, 2e4) } else if index >= 12 { logu(&mut pr, 2e3, 5e3) } else { logu(&mut pr, 2e3, 2.8e3) };
                 let b: Vec<f64> = (0..n).map(|_| r.range(-1.5, 1.5)).collect();
                 let x: Vec<Vec<f64>> = (0..n).map(|i| vec![s2 * r.range(-2.0, 2.0), b[i]]).collect();
                 let y: Vec<f64> = b.iter().map(|v| 2.0 * v).collect();
@@ -1173,7 +1175,7 @@ fn gen_case(batch: &str, index: u64, seed: u64) -> Case {
             let n = pr.usize_in(4, 8);
             let scale = logu(&mut pr, 300.0, 1000.0);
             // the last 24 runs of the thorough tier go further: 3e7..1e8 (1e8..several 1e9 updates, minutes per fit)
-            let u = if index >= 216 { logu(&mut pr, 3e7, 1e8) } else { logu(&mut pr, 5e6, 1.5e7) };
+            let u = if index >= 216 { logu(&mut pr, 3e7, 1e8) } else if index >= 12 { logu(&mut pr, 5e6, 1.5e7) } else { logu(&mut pr, 4e6, 8e6) };
             let c = (u / (scale * scale)).min(100.0).max(0.1);
             let x: Vec<Vec<f64>> = (0..n).map(|_| vec![scale * r.range(-1.0, 1.0)]).collect();
             let y: Vec<f64> = (0..n).map(|_| r.range(-1.5, 1.5)).collect();
@@ -1304,7 +1306,7 @@ impl Property for C10 {
             Batch { name: "svr-marathon", count: if q { 12 } else { 240 }, simulated: false, exhaustive: false, note: "schedule-free: converging fits that need 1e6..1e8 SMO updates (4..8 rows, one feature of magnitude 300..1000, linear kernel, C * scale^2 = 5e6..1.5e7; the last 24 runs of the thorough tier 3e7..1e8, i.e. up to several 1e9 updates): optimality must hold at termination however long it takes" },
             Batch { name: "svr-large-features", count: if q { 1_500 } else { 60_000 }, simulated: false, exhaustive: false, note: "schedule-free: large kernel curvature (linear kernel on features of magnitude 30..300, quadratic on ~10), noise below epsilon, f32 and f64" },
             Batch { name: "svr-f32-resolution", count: if q { 1_500 } else { 60_000 }, simulated: false, exhaustive: false, note: "schedule-free: f32 fits whose tolerance lies below the floating-point resolution of the targets (|y| 1e3..1e5, tol 1e-3..1e-4) — the region of the repaired livelock" },
-            Batch { name: "svr-f32-offcentre", count: if q { 1_500 } else { 60_000 }, simulated: false, exhaustive: false, note: "schedule-free, single precision: feature columns offset by 16..256 with spread 1, centred targets with slope 10..60 (|b| >> |y|): the gradients grow by orders of magnitude during the fit" },
+            Batch { name: "svr-f32-offcentre", count: if q { 300 } else { 20_000 }, simulated: false, exhaustive: false, note: "schedule-free, single precision: feature columns offset by 16..256 with spread 1, centred targets with slope 10..60 (|b| >> |y|): the gradients grow by orders of magnitude during the fit" },
             Batch { name: "svr-f32", count: if q { 1_000 } else { 100_000 }, simulated: false, exhaustive: false, note: "schedule-free, single precision" },
             Batch { name: "kernels", count: if q { 6_000 } else { 600_000 }, simulated: false, exhaustive: false, note: "schedule-free: closed forms, symmetry, PSD of linear/RBF Gram matrices" },
             Batch { name: "kernels-f32", count: if q { 2_000 } else { 200_000 }, simulated: false, exhaustive: false, note: "schedule-free, single precision" },
